@@ -18,6 +18,8 @@ VERIF = os.path.dirname(os.path.dirname(os.path.abspath(__file__)))
 REPO = os.environ.get("VERIF_REPO", "/repo")
 NPROC = int(os.environ.get("VERIF_NPROC", "16"))
 EVIDENCE_SCHEMA = "/root/.vp/EVIDENCE.schema.json"
+# where evidence/ and replays/ are written (mutant runs redirect this)
+OUT = os.environ.get("VERIF_OUT", VERIF)
 
 
 class HarnessError(Exception):
@@ -212,7 +214,7 @@ def load_known(prop_id):
 # Reporting
 # --------------------------------------------------------------------------
 def write_replay(prop_id, viol):
-    d = os.path.join(VERIF, "replays", prop_id)
+    d = os.path.join(OUT, "replays", prop_id)
     os.makedirs(d, exist_ok=True)
     body = {
         "property": prop_id,
@@ -239,7 +241,7 @@ def write_evidence(prop_id, tier, level, coverage, assumptions, wall, nviol):
         "wall_s": round(wall, 3),
         "violations": int(nviol),
     }
-    d = os.path.join(VERIF, "evidence")
+    d = os.path.join(OUT, "evidence")
     os.makedirs(d, exist_ok=True)
     path = os.path.join(d, prop_id + ".json")
     tmp = path + ".tmp"
